@@ -38,7 +38,10 @@ FIXED_WITNESS = {
     "xcache": ["A 0 - p 15 0 0 - - 1", "L - al p/m 0", "Q - 22 0", "A 1 p m 15 0 0 - - 2", "Q - 22 0", "D p/m 0", "Q - 22 0"],
     "xcache-parent": ["A 0 - p 15 0 0 - - 1", "L p al x 0", "Q p 22 0", "A 0 - x 15 0 0 - - 2", "Q p 22 0", "R x y 4", "Q p 22 0"],
     "bfrag": ["A 0 - p 15 0 0 - - 1", "A 0 - x 15 0 0 - - 2", "L - p/al x 1", "X 1 q ~"],
-    "madd-fragment-index": ["A 0 - r2 17 1 0 - - 71", "A 0 r2 xx 2 2 1 INDEX - 23"],
+    "madd-fragment-index": ["A 0 - r2 17 1 0 - - 71", "A 0 r2 xx 2 2 1 INDEX - 23", "A 0 - c 15 0 0 - - 1", "A 0 r2 yy 3 2 0 r2 c,- 0"],
+    "alias-chain-target-first": ["A 0 - x 17 0 0 - - 1", "L - c1 x 0", "L - c2 c1 0", "L - c3 c2 0", "L - c4 c3 1", "Q - 17 0", "Q - 21 0", "R x y 0", "Q - 17 0"],
+    "alias-chain-target-last": ["L - c4 c3 0", "L - c3 c2 0", "L - c2 c1 0", "L - c1 x 0", "A 0 - x 17 0 0 - - 1", "Q - 17 0", "D c2 8", "Q - 17 0"],
+    "alias-chain-meta": ["A 0 - p 15 0 0 - - 1", "A 1 p m 15 0 0 - - 2", "L p a1 p/m 0", "L p a2 p/a1 0", "L - a3 p/a2 0", "L p a4 a3 0", "Q p 15 0", "Q - 15 0"],
     "include-cache": ["A 0 - a 15 0 0 - - 1", "Q - 22 0", "I inc1 0", "Q - 22 0", "J inc2 1 P_ _S", "Q - 22 0"],
     "uninclude": ["A 0 - a 15 1 0 - - 1", "A 0 - r 0 1 0 - - 0", "I inc1 0", "J inc2 1 P_ _S", "Q - 22 0", "U 1", "Q - 22 0", "A 0 - z 15 1 0 - - 1", "U 1", "Q - 22 0"],
     "namespace-null": ["I inc1 1", "N 1 ns", "N 2 n.s", "Q - 22 0"],
@@ -83,7 +86,7 @@ def parse_steps(out):
         elif cur is not None:
             if ln.startswith("i "):
                 cur[2] = dict(kv.split("=") for kv in ln[2:].split())
-            elif ln.split(" ", 1)[0] in ("ref", "e", "sorted", "n", "k", "vs", "vc", "va", "x", "w", "frefs"):
+            elif ln.split(" ", 1)[0] in ("ref", "e", "sorted", "n", "k", "vs", "vc", "va", "x", "w", "frefs", "al"):
                 cur[1].append(ln)
     return steps
 
@@ -118,6 +121,8 @@ def parse_dump(lines):
             d.setdefault("x", []).append(t)
         elif t[0] == "w":
             d.setdefault("w", []).append(t)
+        elif t[0] == "al":
+            d.setdefault("al", []).append(t)
     return d
 
 
@@ -183,7 +188,25 @@ def spec_check(op, res, dump_lines):
                 bad.append(("alias", "alias %s points to a freed entry" % e["name"]))
             elif e["dist"] != want:
                 bad.append(("alias", "alias %s -> %s resolves to %s, following the names gives %s" % (e["name"], e["tgt"], e["dist"], want)))
-        elif "ins" in e and e["ins"] != "-":
+        elif "ins" in e and e["ins"] != "-" and False:
+            pass
+    # gd_aliases / gd_naliases of a field: the field itself and every alias whose chain of names ends in it
+    want_al = {}
+    for e in d["ents"]:
+        if e["ty"] == "21":
+            r = chase(e["tgt"])
+            if r != "-":
+                want_al.setdefault(r, []).append(e["name"])
+    got_al = {}
+    for t in d.get("al", []):
+        got_al[t[1]] = (t[2], t[4:])
+    for f in sorted(set(want_al) | set(got_al)):
+        w_ = [f] + want_al.get(f, [])
+        g_ = got_al.get(f, (str(1), [f]))
+        if g_[1] != w_ or g_[0] != str(len(w_)):
+            bad.append(("aliases", "gd_aliases(%s) = %s (gd_naliases %s), the aliases whose names lead to it are %s" % (f, " ".join(g_[1]), g_[0], " ".join(w_))))
+    for e in d["ents"]:
+        if e["ty"] != "21" and "ins" in e and e["ins"] != "-":
             for ic in e["ins"].split(","):
                 if ic.endswith(":!"):
                     bad.append(("input", "cached input %s of %s points to a freed entry" % (ic, e["name"])))
@@ -340,7 +363,7 @@ def tree_tail(rng, head):
     with a full gd_entry_list-versus-gd_nentries sweep (W) after every step."""
     t = []
     par = [-1, 0]                 # parent fragment of every fragment, as the library numbers them
-    files = [3, 4, 5, 6, 7, 8]
+    files = [3, 4, 5, 6, 7, 8, 9]
     rng.shuffle(files)
     fields = {}                   # parent field -> fragment it was created in
     metas = []
@@ -359,6 +382,9 @@ def tree_tail(rng, head):
         p = max(rng.sample(cand, min(2, len(cand))), key=depth) if rng.random() < 0.7 else rng.choice(cand)
         t.append("I inc%d %d" % (k, p))
         par.append(p)
+        if k == 9:      # the alias-chain fragment: no parents, only aliases to move / delete
+            metas += ["z_a1", "z_a3", "z_b2", "z_c1", "z_t"]
+            continue
         fields["k%d_c" % k] = len(par) - 1
         metas += ["k%d_c/m" % k, "k%d_c/n" % k, "k%d_c/o" % k, "k%d_al" % k]
     # 2. parents with subfields created through the API at several levels (root included)
@@ -474,7 +500,40 @@ def gen_sequence(rng, n, alias_loops, madd_any_frag=False):
         ops.insert(len(ops) - 1, q)
         ops.append(q)
 
+    def alias_chain():
+        # a chain of 3..6 aliases ending in an existing, a new or a missing field, created in any order
+        k = rng.randint(3, 6)
+        names = rng.sample([x for x in TOP if x not in live] + ["c%d" % j for j in range(1, 8)], k)
+        end = rng.choice([c for c in live if c != "INDEX"] or ["zz"]) if rng.random() < 0.6 else rng.choice(TOP)
+        links = []
+        tops = [x for x in live if "/" not in x and x != "INDEX" and x not in aliases]
+        for j, nm in enumerate(names):
+            tgt = end if j == 0 else links[j - 1][2]
+            if tops and rng.random() < 0.25:
+                par = rng.choice(tops)
+                links.append((par, nm, par + "/" + nm))
+            else:
+                links.append(("-", nm, nm))
+            links[-1] = links[-1] + (tgt,)
+        order = list(range(k))
+        r = rng.random()
+        if r < 0.35:
+            pass                      # target first
+        elif r < 0.6:
+            order.reverse()           # target last
+        else:
+            rng.shuffle(order)
+        for j in order:
+            par, nm, full, tgt = links[j]
+            ops.append("L %s %s %s %d" % (par, nm, tgt, rng.choice([0, 1])))
+            everalias.add(full); aliases[full] = tgt; used.append(tgt)
+            if full not in live:
+                live.append(full)
+        ops.append("Q - %d %d" % (rng.choice([22, 21, 15, 17, 20]), rng.choice([0, 1, 2])))
+
     for _ in range(n):
+        if rng.random() < 0.02:
+            alias_chain()
         bracket_from = len(ops)
         r = rng.random()
         if r >= 0.78:
@@ -675,7 +734,7 @@ def main():
 
     # 81b3046 made the type switch of _GD_Add use the new entry's fragment; _GD_CopyScalars still checks scalar codes
     # against D->fragment[entry->fragment_index] (DIRECT["crash/madd-fragment-index"]), so keep the index in range
-    madd_frag_safe = False
+    madd_frag_safe = True    # 90c321d
 
     # ---- 2. generated sequences
     nseq = 160 if not chk.thorough else 2500
@@ -853,9 +912,9 @@ def main():
 
     # behaviour outside the model, judged against the property text directly
     DIRECT = {
-        # gd_madd*() with an out-of-range (documented as ignored) fragment index and a scalar code
-        "crash/madd-fragment-index": ["A 0 - r2 17 0 0 - - 1", "A 0 - c 15 0 0 - - 1", "A 0 r2 xx 3 2 0 r2 c,- 0"],
         # gd_alter_spec (mod.c, outside the model) drops the hidden flag of the field and keeps the cached lists
+        # gd_add_spec with the subfield given as "parent/name": only the top-level lists are invalidated
+        "list/A.spec-barth": ["A 0 - par 15 0 0 - - 1", "A 1 par c1 15 0 0 - - 2", "Q par 15 0", "A 1 - par/c2 15 0 0 - - 3", "Q par 15 0"],
         "list/S": ["A 0 - r2 15 0 1 - - 5", "A 0 - b 15 0 0 - - 1", "Q - 22 0", "S - r2 6", "Q - 22 0"],
     }
     for dkey, dops in DIRECT.items():
